@@ -277,3 +277,82 @@ theorem duplicate_keyword_first_wins (acc : List (String × Val)) (name : String
   unfold addFirst; simp [h]
 
 end Pangaea.C08
+
+namespace Pangaea.C08
+open Pangaea.Core Pangaea.C07
+
+/-- the interpolated parts of a string: one after the other in source order, each evaluated once and converted with
+    its `S`, the text accumulated left to right -/
+inductive SeqPieces (env : Nat) : List PieceE → String → St → String → St → Prop
+  | nil (acc : String) (s : St) : SeqPieces env [] acc s acc s
+  | cons {str : String} {e : Expr} {rest : List PieceE} {acc res sv : String} {s s1 s2 s3 : St} {v : Val} :
+      GivesE e env s v s1 → (∃ fuel, callPropQuiet fuel v "S" [] env s1 = (.ok (.str sv), s2)) →
+      SeqPieces env rest (acc ++ str ++ sv) s2 res s3 → SeqPieces env (.mk str e :: rest) acc s res s3
+
+theorem evalPieces_lift {f g : Nat} {ps : List PieceE} {env : Nat} {acc : String} {s s' : St} {r : R String}
+    (h : evalPieces f ps env acc s = (r, s')) (hr : r.notFuel) (hfg : f ≤ g) : evalPieces g ps env acc s = (r, s') := by
+  obtain ⟨k, rfl⟩ := Nat.exists_eq_add_of_le hfg
+  induction k with
+  | zero => exact h
+  | succ k ih => exact (allLe (f + k)).evalPieces ps env acc s r s' (ih (Nat.le_add_right _ _)) hr
+
+theorem callPropQuiet_lift {f g : Nat} {v : Val} {n : String} {args : List Val} {env : Nat} {s s' : St} {r : R Val}
+    (h : callPropQuiet f v n args env s = (r, s')) (hr : r.notFuel) (hfg : f ≤ g) : callPropQuiet g v n args env s = (r, s') := by
+  obtain ⟨k, rfl⟩ := Nat.exists_eq_add_of_le hfg
+  induction k with
+  | zero => exact h
+  | succ k ih => exact (allLe (f + k)).callPropQuiet v n args env s r s' (ih (Nat.le_add_right _ _)) hr
+
+theorem pieces_of_seq {env : Nat} {ps : List PieceE} {acc res : String} {s s' : St} (h : SeqPieces env ps acc s res s') :
+    ∃ fuel, evalPieces fuel ps env acc s = (.ok res, s') := by
+  induction h with
+  | nil acc s => exact ⟨1, by simp [evalPieces, pureM]⟩
+  | @cons str e rest acc res sv s s1 s2 s3 v hv hs _ ih =>
+    obtain ⟨f, hf⟩ := hv
+    obtain ⟨c, hc⟩ := hs
+    obtain ⟨g, hg⟩ := ih
+    have h1 := evalE_lift hf (by simp [R.notFuel]) (Nat.le_max_left f (max c g))
+    have h2 := callPropQuiet_lift hc (by simp [R.notFuel]) (Nat.le_trans (Nat.le_max_left c g) (Nat.le_max_right f (max c g)))
+    have h3 := evalPieces_lift hg (by simp [R.notFuel]) (Nat.le_trans (Nat.le_max_right c g) (Nat.le_max_right f (max c g)))
+    exact ⟨max f (max c g) + 1, by rw [evalPieces]; simp [bindM, h1, h2, h3]⟩
+
+theorem seq_of_pieces {env : Nat} : ∀ (ps : List PieceE) (f : Nat) (acc res : String) (s s' : St),
+    evalPieces f ps env acc s = (.ok res, s') → SeqPieces env ps acc s res s' := by
+  intro ps
+  induction ps with
+  | nil =>
+    intro f acc res s s' h
+    cases f with
+    | zero => simp [evalPieces, outOfFuel] at h
+    | succ f => simp [evalPieces, pureM] at h; obtain ⟨rfl, rfl⟩ := h; exact .nil _ _
+  | cons p rest ih =>
+    intro f acc res s s' h
+    obtain ⟨str, e⟩ := p
+    cases f with
+    | zero => simp [evalPieces, outOfFuel] at h
+    | succ f =>
+      rw [evalPieces] at h
+      simp only [bindM] at h
+      cases hev : evalE f e env s with
+      | mk r0 s1 =>
+        rw [hev] at h
+        cases r0 with
+        | ok v =>
+          simp only at h
+          cases hc : callPropQuiet f v "S" [] env s1 with
+          | mk r1 s2 =>
+            rw [hc] at h
+            cases r1 with
+            | ok sv =>
+              cases sv with
+              | str t => simp only at h; exact .cons ⟨f, hev⟩ ⟨f, hc⟩ (ih f _ res s2 s' h)
+              | _ => simp [throwM] at h
+            | _ => simp at h
+        | _ => simp at h
+
+/-- **The interpolated parts of a string are evaluated once each, in source order.** -/
+theorem embedded_parts_in_source_order (ps : List PieceE) (env : Nat) (acc res : String) (s s' : St) :
+    (∃ fuel, evalPieces fuel ps env acc s = (.ok res, s')) ↔ SeqPieces env ps acc s res s' :=
+  ⟨fun ⟨f, hf⟩ => seq_of_pieces ps f acc res s s' hf, pieces_of_seq⟩
+
+end Pangaea.C08
